@@ -114,7 +114,9 @@ def one(job):
         o1, o2, o3, o4 = (os.path.join(d, f"rep{i}.pcapng") for i in range(4))
         a = lambda o: ["-i", cap, "-s", kl, "-o", o] + list(args)
         # the earlier run uses OTHER options as well (its port map, extra server ports, -a must not leak into the next run)
-        b = lambda o: ["-i", cap2, "-s", kl2, "-o", o, "-m", "443:9000", "8443:9001", "-p", "8443", "4433", "-a"]
+        # … among them, as an extra server port, a port that run A's capture uses as a CLIENT port: if it leaked, A's roles flip
+        leak_port = [str(mx.tls[0]["conn"].cport)] if mx.tls else []
+        b = lambda o: ["-i", cap2, "-s", kl2, "-o", o, "-m", "443:9000", "8443:9001", "-p", "8443", "4433"] + leak_port + ["-a"]
         o5, o6 = os.path.join(d, "rep5.pcapng"), os.path.join(d, "rep6.pcapng")
         bad_out = b(os.path.join(d, "no-such-dir", "x.pcapng"))                    # run B dies when opening its output file
         bad_keys = ["-i", cap2, "-s", os.path.join(d, "missing.log"), "-o", o6, "-p", "5555"]   # run dies on a missing key log
